@@ -327,12 +327,41 @@ func (u *Unit) libModel(st *State, e *ast.CallExpr, callee *types.Func, ca callA
 		if r, ok := u.sortSliceGeneric(st, e, ca); ok {
 			return r, true
 		}
+	case "(*bytes.Buffer).Bytes":
+		// the unread portion of the buffer: the same slice value as long as nothing is written to or read from the buffer
+		// (a function of the buffer and its two ghost byte counters); content and length are not modelled
+		u.checkNonNilTerm(st, *ca.recv, e, "receiver of "+u.exprTextShort(e.Fun))
+		c.declareFun("wbuf.slice", "(Int Int Int) Slice")
+		r := Term{S: fmt.Sprintf("(wbuf.slice %s %s %s)", ca.recv.S, u.ghostCount(st, "written", ca.recv.S), u.ghostCount(st, "consumed", ca.recv.S)), T: sig.Results().At(0).Type()}
+		st.assume(u.rangeFacts(st, r.S, r.T, 0))
+		return r, true
+	case "(*sync.Pool).Put":
+		// the pool keeps the object; nothing is written (using the object after Put is the caller's business)
+		return Term{Tuple: []Term{}}, true
+	case "(*sync.Pool).Get":
+		// an arbitrary value: possibly one handed to Put earlier (NOT fresh), possibly the result of New
+		return u.freshOf(st, sig.Results().At(0).Type(), "pooled"), true
+	case "(*sync.WaitGroup).Add", "(*sync.WaitGroup).Done":
+		return Term{Tuple: []Term{}}, true
 	case "errors.New":
 		r := c.fresh("err", "Int")
 		st.assume("(> " + r + " 1000)")
 		u.c.n++
 		x := fmt.Sprintf("x_q%d", u.c.n)
 		st.assume(fmt.Sprintf("(forall ((%s Int)) (not (errwraps %s %s)))", x, r, x))
+		return Term{S: r, T: sig.Results().At(0).Type()}, true
+	case "google.golang.org/grpc/status.Errorf", "google.golang.org/grpc/status.Error":
+		// documented: returns nil exactly when the code is codes.OK (0); otherwise a fresh error wrapping nothing of ours
+		r := c.fresh("err", "Int")
+		code := ca.args[0].S
+		zero := "0"
+		if c.bv {
+			zero = c.constInt(big.NewInt(0), 32, false)
+		}
+		st.assume(ite(eq(code, zero), eq(r, "0"), "(> "+r+" 1000)"))
+		u.c.n++
+		xq := fmt.Sprintf("x_q%d", u.c.n)
+		st.assume(fmt.Sprintf("(forall ((%s Int)) (not (errwraps %s %s)))", xq, r, xq))
 		return Term{S: r, T: sig.Results().At(0).Type()}, true
 	case "fmt.Errorf":
 		r := c.fresh("err", "Int")
@@ -883,6 +912,9 @@ func (u *Unit) sortSliceModel(st *State, e *ast.CallExpr, ca callArgs) (Term, bo
 		st.assume(fmt.Sprintf("(forall ((%s %s)) (! %s :pattern (%s)))", a, c.idxSort(), implies(and(c.idxLe(zero, a), c.idxLt(a, sLen(s.S))),
 			fmt.Sprintf("(exists ((%s %s)) %s)", b, c.idxSort(), and(c.idxLe(zero, b), c.idxLt(b, sLen(s.S)), eq(at(oldBlk, a), at(newBlk, b))))), at(oldBlk, a)))
 	}
+	if u.ct != nil && u.ct.Options["sort-perm"] {
+		u.sortPermFacts(st, at, oldBlk, newBlk, sLen(s.S))
+	}
 	// consequence of being a permutation, stated for the solver: pairwise-distinct sort keys stay pairwise distinct
 	oka, _, _ := keyOf(at(oldBlk, a))
 	okb, _, _ := keyOf(at(oldBlk, b))
@@ -893,6 +925,26 @@ func (u *Unit) sortSliceModel(st *State, e *ast.CallExpr, ca callArgs) (Term, bo
 	}
 	u.eng.noteFuncLit(u, fl)
 	return Term{Tuple: []Term{}}, true
+}
+
+
+// sortPermFacts (`option sort-perm`): the sorted slice is a permutation of the input, stated with one pair of
+// uninterpreted index maps per sort call (loop-free for E-matching, unlike the exists-based membership axioms):
+// new[a] == old[perm(a)], old[a] == new[inv(a)], both maps stay in range and are inverse to each other.
+func (u *Unit) sortPermFacts(st *State, at func(blk, i string) string, oldBlk, newBlk, ln string) {
+	c := u.c
+	u.c.n++
+	id := u.c.n
+	perm, inv := fmt.Sprintf("sortperm%d", id), fmt.Sprintf("sortinv%d", id)
+	is := c.idxSort()
+	c.declareFun(perm, "("+is+") "+is)
+	c.declareFun(inv, "("+is+") "+is)
+	a := fmt.Sprintf("a_q%d", id)
+	zero := c.idxConst(0)
+	rng := and(c.idxLe(zero, a), c.idxLt(a, ln))
+	pa, ia := fmt.Sprintf("(%s %s)", perm, a), fmt.Sprintf("(%s %s)", inv, a)
+	st.assume(fmt.Sprintf("(forall ((%s %s)) (! %s :pattern (%s)))", a, is, implies(rng, and(eq(at(newBlk, a), at(oldBlk, pa)), c.idxLe(zero, pa), c.idxLt(pa, ln), eq(fmt.Sprintf("(%s %s)", inv, pa), a))), at(newBlk, a)))
+	st.assume(fmt.Sprintf("(forall ((%s %s)) (! %s :pattern (%s)))", a, is, implies(rng, and(eq(at(oldBlk, a), at(newBlk, ia)), c.idxLe(zero, ia), c.idxLt(ia, ln), eq(fmt.Sprintf("(%s %s)", perm, ia), a))), at(oldBlk, a)))
 }
 
 // sortSliceGeneric: sort.Slice(s, less) with a side-effect free comparator of a shape the order model above does not
@@ -925,6 +977,9 @@ func (u *Unit) sortSliceGeneric(st *State, e *ast.CallExpr, ca callArgs) (Term, 
 	if u.ct != nil && (u.ct.Options["sort-members"] || u.ct.Options["sort-members-bwd"]) {
 		st.assume(fmt.Sprintf("(forall ((%s %s)) (! %s :pattern (%s)))", a, c.idxSort(), implies(and(c.idxLe(zero, a), c.idxLt(a, sLen(s.S))),
 			fmt.Sprintf("(exists ((%s %s)) %s)", b, c.idxSort(), and(c.idxLe(zero, b), c.idxLt(b, sLen(s.S)), eq(at(oldBlk, a), at(newBlk, b))))), at(oldBlk, a)))
+	}
+	if u.ct != nil && u.ct.Options["sort-perm"] {
+		u.sortPermFacts(st, at, oldBlk, newBlk, sLen(s.S))
 	}
 	if fl, ok := ast.Unparen(e.Args[1]).(*ast.FuncLit); ok {
 		u.eng.noteFuncLit(u, fl)
@@ -979,6 +1034,12 @@ func (u *Unit) pureComparator(x ast.Expr) bool {
 					}
 				}
 			}
+			if callee, _ := u.staticCallee(y); callee != nil && !okCall {
+				// a repository function whose (frame-checked) contract has an empty modifies list writes nothing
+				if ct, _ := u.eng.contractFor(callee); ct != nil && !ct.ModifiesAll && !ct.NoFrame && !ct.Trusted && len(ct.Modifies) == 0 {
+					okCall = true
+				}
+			}
 			if !okCall {
 				pure = false
 			}
@@ -989,6 +1050,15 @@ func (u *Unit) pureComparator(x ast.Expr) bool {
 	}
 	for _, stmt := range fl.Body.List {
 		switch y := stmt.(type) {
+		case *ast.AssignStmt:
+			// `x, ok := <pure expression>`: new locals of the literal only
+			if y.Tok != token.DEFINE {
+				pure = false
+				break
+			}
+			for _, r := range y.Rhs {
+				ast.Inspect(r, checkExpr)
+			}
 		case *ast.ReturnStmt:
 			for _, r := range y.Results {
 				ast.Inspect(r, checkExpr)
